@@ -493,11 +493,19 @@ func outsideRegion(ob *Obligation, k *knownFinding, dir string, timeoutMs int) b
 		return false
 	}
 	vc := ob.vc
-	env := &SpecEnv{vc: vc, vars: map[string]Value{}, old: map[string]Value{}, pkg: vc.fi.Pkg.PkgPath}
+	pkg := ""
+	if vc.fi != nil {
+		pkg = vc.fi.Pkg.PkgPath
+	} else if vc.fc != nil {
+		pkg = vc.fc.Pkg // a lemma: the region speaks about its (skolemised) variables
+	}
+	env := &SpecEnv{vc: vc, vars: map[string]Value{}, old: map[string]Value{}, pkg: pkg}
 	for n, v := range vc.entry {
 		env.vars[n], env.old[n] = v, v
 	}
-	env.vars[fiRecvName(vc.fi)] = vc.entry["self"]
+	if vc.fi != nil {
+		env.vars[fiRecvName(vc.fi)] = vc.entry["self"]
+	}
 	nUns := len(vc.unsupported)
 	region := vc.specBool(e, env)
 	if len(vc.unsupported) > nUns {
